@@ -519,6 +519,44 @@ def rule_key(ctx: Ctx) -> RuleReport:
     # a different statement skeleton means the recogniser no longer applies (ANALYSIS-ERROR)
     for fn, tmpl_src, what in HELPER_TEMPLATES:
         _template(rep, ctx, "C20-KEY", fn, tmpl_src, what)
+    # the expanded schedule is kept per key (a module-level cache hands out the very list it stores): whoever receives it reads it only --
+    # reversing, sorting or patching it in place changes the schedule of every later call with that key
+    m = ctx.p.module(AES)
+    caches = {t.id for st in m.tree.body if isinstance(st, (ast.Assign, ast.AnnAssign)) for t in (st.targets if isinstance(st, ast.Assign) else [st.target]) if isinstance(t, ast.Name)
+              and isinstance(st.value, (ast.Dict, ast.Call)) and (isinstance(st.value, ast.Dict) or (dotted(st.value.func) or "").split(".")[-1] in ("dict", "OrderedDict", "defaultdict", "WeakValueDictionary"))}
+    shared_fns = set()
+    for fi in m.functions.values():
+        if fi.parent is not None:
+            continue
+        decos = {(dotted(d.func if isinstance(d, ast.Call) else d) or "").split(".")[-1] for d in fi.node.decorator_list}
+        stored = {st.value.id for st in walk_own(fi.node) if isinstance(st, ast.Assign) and isinstance(st.value, ast.Name) and any(isinstance(t, ast.Subscript) and isinstance(t.value, ast.Name) and t.value.id in caches for t in st.targets)}
+        loaded = {st.targets[0].id for st in walk_own(fi.node) if isinstance(st, ast.Assign) and len(st.targets) == 1 and isinstance(st.targets[0], ast.Name)
+                  and any(isinstance(x, ast.Name) and x.id in caches for x in ast.walk(st.value))}
+        rets = {r.value.id for r in walk_own(fi.node) if isinstance(r, ast.Return) and isinstance(r.value, ast.Name)}
+        if decos & {"lru_cache", "cache"} or rets & (stored | loaded):
+            shared_fns.add(fi.name)
+    if not shared_fns:
+        rep.info.append("no function hands out a cached key schedule (nothing to protect)")
+    MUT = ("reverse", "sort", "append", "extend", "insert", "pop", "remove", "clear", "__setitem__", "__delitem__")
+    n_recv = 0
+    for fi in m.functions.values():
+        holders = {st.targets[0].id for st in walk_own(fi.node) if isinstance(st, ast.Assign) and len(st.targets) == 1 and isinstance(st.targets[0], ast.Name) and isinstance(st.value, ast.Call)
+                   and isinstance(st.value.func, ast.Name) and st.value.func.id in shared_fns}
+        if not holders or fi.name in shared_fns:
+            continue
+        n_recv += 1
+        bad = None
+        for x in walk_own(fi.node):
+            if isinstance(x, ast.Call) and isinstance(x.func, ast.Attribute) and x.func.attr in MUT and isinstance(x.func.value, ast.Name) and x.func.value.id in holders:
+                bad = x
+            elif isinstance(x, (ast.Subscript,)) and isinstance(x.ctx, (ast.Store, ast.Del)) and isinstance(x.value, ast.Name) and x.value.id in holders:
+                bad = x
+        if bad is not None:
+            rep.fail(Finding("C20-KEY", AES, fi.qual, "cached key schedule changed in place: " + anorm(bad, fi.node), f"`{short(bad, 50)}` changes the list that {', '.join(sorted(shared_fns))} keeps for this key: the first call leaves the schedule in another order / with other entries, so the second block operation with the same key (every later object of the same PDF) is no longer FIPS-197", line=bad.lineno))
+        else:
+            rep.ok({"schedule_receiver": fi.qual, "reads_only": True})
+    if shared_fns and n_recv < 4:
+        raise AnalysisError(f"C20-KEY: only {n_recv} receivers of the cached key schedule found (4 confirmed: the ECB / CBC drivers)")
     return rep
 
 
